@@ -42,6 +42,25 @@ PIECE = lambda n: ENUM('piece::Piece', n)
 CONSTS = {}
 
 
+COMMUTE = {'board::Board::xor', 'board::Board::remove_my_castle_rights', 'board::Board::remove_their_castle_rights',
+           'board::Board::remove_castle_rights'}
+
+
+def commuting_run(e):
+    """maximal run of ('after', site, callee, old, argvals, k) nodes with callee in COMMUTE whose other arguments do not
+    depend on the object being updated; returns (nodes, object below the run) or (None, None)"""
+    run = []
+    while isinstance(e, tuple) and e and e[0] == 'after' and e[2] in COMMUTE:
+        others = [x for i, x in enumerate(e[4]) if i != e[5] - 1]
+        if any(isinstance(y, tuple) and y and y[0] == 'after' for x in others for y in walk(x)):
+            break
+        run.append(e)
+        e = e[3]
+    if not run:
+        return None, None
+    return run, e
+
+
 def equiv(a, b, memo, depth=0):
     """structural equality on the shared expression graphs, expanding named merge values;
     returns None if equal, else a (path, a-sub, b-sub) witness"""
@@ -82,6 +101,30 @@ def _equiv(a, b, memo, depth):
             if r is not None:
                 return (a[1].rsplit('::', 1)[-1] + '(..)/' + r[0], r[1], r[2])
         return None
+    if a[0] == 'after' and b[0] == 'after' and a[2] in COMMUTE and b[2] in COMMUTE:
+        # a run of mutually commuting updates (xor toggles accumulate with ^; rights removals clear bits of one slot;
+        # the two groups touch different fields): compare as a multiset, then the objects below the runs
+        ra, base_a = commuting_run(a)
+        rb, base_b = commuting_run(b)
+        if ra is not None and rb is not None and len(ra) == len(rb) and (len(ra) > 1):
+            left = list(rb)
+            ok = True
+            for x in ra:
+                hit = None
+                for y in left:
+                    if x[2] == y[2] and x[5] == y[5] and all(equiv(p, q, memo, depth + 1) is None
+                                                           for i, (p, q) in enumerate(zip(x[4], y[4])) if i != x[5] - 1):
+                        hit = y
+                        break
+                if hit is None:
+                    ok = False
+                    break
+                left.remove(hit)
+            if ok:
+                r = equiv(base_a, base_b, memo, depth + 1)
+                if r is None:
+                    return None
+                return ('before the updates/' + r[0], r[1], r[2])
     if a[0] == 'after' and b[0] == 'after':
         if a[2] != b[2] or a[5] != b[5]:
             return ('', a, b)
